@@ -9,8 +9,25 @@ impl Hasher for Fnv {
     fn write(&mut self, bytes: &[u8]) { for b in bytes { self.0 ^= *b as u64; self.0 = self.0.wrapping_mul(0x100000001b3); } }
 }
 fn fnv<T: Hash>(x: &T) -> u64 { let mut h = Fnv(0xcbf29ce484222325); x.hash(&mut h); h.finish() }
+impl Default for Fnv { fn default() -> Self { Fnv(0xcbf29ce484222325) } }
 
-            macro_rules! cmps { ($op:expr, $x:ident, $T:ty) => { match $op {
+/// A `Hasher` that records every byte it is fed (all `write_*` defaults forward to `write`).
+struct Rec(Vec<u8>);
+impl Hasher for Rec {
+    fn finish(&self) -> u64 { 0 }
+    fn write(&mut self, bytes: &[u8]) { self.0.extend_from_slice(bytes); }
+}
+fn stream<T: Hash>(x: &T) -> Vec<u8> { let mut h = Rec(Vec::new()); x.hash(&mut h); h.0 }
+
+/// `x` and `y` were built by different routes; when they are the same value (decided on the digit
+/// patterns, not by the crate's `==`) they must hash identically. `None` = route did not reproduce
+/// the value (a defect of another property: not judged here).
+fn same_hash<T: Hash + Pat>(x: &T, y: &T) -> Option<bool> {
+    if x.to_hex() != y.to_hex() { return None; }
+    Some(fnv(x) == fnv(y) && stream(x) == stream(y))
+}
+
+            macro_rules! cmps { ($op:expr, $x:ident, $T:ty, $dig:expr) => { match $op {
                 // inherent const twins
                 "eq" => return Some(<$T>::eq(&$x(0), &$x(1)).out()),
                 "ne" => return Some(<$T>::ne(&$x(0), &$x(1)).out()),
@@ -36,6 +53,40 @@ fn fnv<T: Hash>(x: &T) -> u64 { let mut h = Fnv(0xcbf29ce484222325); x.hash(&mut
                 "ord_clamp" => return Some(Ord::clamp($x(0), $x(1), $x(2)).out()),
                 // equal values hash equally: answer whether hashes agree
                 "hash_eq" => return Some((fnv(&$x(0)) == fnv(&$x(1))).out()),
+                // the same value reached by other construction routes hashes like the `from_digits` one
+                "hash_routes" => {
+                    let v = $x(0);
+                    let one = <$T>::ONE;
+                    let k = (<$T>::BITS / 3) as u32 + 1;
+                    let routes: [$T; 9] = [
+                        !(!v),
+                        v.wrapping_add(one).wrapping_sub(one),
+                        v.wrapping_sub(one).wrapping_add(one),
+                        v.rotate_left(k).rotate_right(k),
+                        v ^ <$T>::ZERO,
+                        v.swap_bytes().swap_bytes(),
+                        v.reverse_bits().reverse_bits(),
+                        <$T>::from_hex(&v.to_hex()),
+                        { let c = v; c.clone() },
+                    ];
+                    let mut ok = true;
+                    for y in routes.iter() { if let Some(b) = same_hash(&v, y) { ok &= b; } }
+                    return Some(ok.out());
+                }
+                // Hash/Eq coherence as its consumers see it: insert `a`, look up `b`
+                "hash_set" => {
+                    let mut s1: std::collections::HashSet<$T> = std::collections::HashSet::new();
+                    s1.insert($x(0));
+                    let mut s2: std::collections::HashSet<$T, std::hash::BuildHasherDefault<Fnv>> = Default::default();
+                    s2.insert($x(0));
+                    let (r1, r2) = (s1.contains(&$x(1)), s2.contains(&$x(1)));
+                    return Some(if r1 == r2 { r1.out() } else { format!("std={} fnv={}", r1, r2) });
+                }
+                // does `hash` feed the hasher exactly what hashing the digit array feeds it?
+                "hash_digits" => {
+                    let v = $x(0);
+                    return Some((stream(&v) == stream(&$dig(&v))).out());
+                }
                 _ => {}
             } } }
 
@@ -47,9 +98,9 @@ macro_rules! imp {
             let u = |i: usize| UT::from_hex(a[i]);
             let s = |i: usize| IT::from_hex(a[i]);
             if !signed {
-                cmps!(op, u, UT);
+                cmps!(op, u, UT, |v: &UT| *v.digits());
             } else {
-                cmps!(op, s, IT);
+                cmps!(op, s, IT, |v: &IT| *v.to_bits().digits());
                 un_ops!(op, s, signum, is_positive, is_negative);
             }
             None
